@@ -121,6 +121,39 @@ theorem tame_foldl_dropSender2 (l : List (Nat × Nat)) (ops : List Op) :
   | nil => exact Tame.refl ops
   | cons x xs ih => exact (tame_dropSender ops x.2).trans (ih _)
 
+theorem endDriver_get (s : St) (how : Drv) (j : Nat) :
+    (endDriver s how).ops[j]? = (s.ops[j]?).map fun o =>
+      if s.opQ.contains j then { o with phase := .taken, mail := dropIf o.mail }
+      else if s.resultmap.any (fun p => p.2 == j) then { o with mail := dropIf o.mail }
+      else o := by
+  simp only [Conn.endDriver, List.getElem?_mapIdx]
+
+theorem dropIf_frame {m : Mail} {f : Frame} (h : dropIf m = .frame f) : m = .frame f := by
+  unfold dropIf at h
+  split at h
+  · cases h
+  · exact h
+
+theorem tame_endDriver (s : St) (how : Drv) : Tame s.ops (endDriver s how).ops := by
+  refine ⟨by simp [Conn.endDriver], fun j o' h => ?_⟩
+  rw [endDriver_get] at h
+  cases ho : s.ops[j]? with
+  | none => rw [ho] at h; cases h
+  | some o =>
+    rw [ho] at h
+    simp only [Option.map_some, Option.some.injEq] at h
+    refine ⟨o, rfl, ?_, ?_⟩
+    · rw [← h]; split
+      · rfl
+      · split <;> rfl
+    · intro f hf
+      rw [← h] at hf
+      split at hf
+      · exact dropIf_frame hf
+      · split at hf
+        · exact dropIf_frame hf
+        · exact hf
+
 /-! ### maps -/
 
 theorem mem_erase {m : List (Nat × Nat)} {k : Int} {p : Nat × Nat} (h : p ∈ erase m k) : p ∈ m ∧ (p.1 : Int) ≠ k := by
